@@ -141,6 +141,12 @@ pub fn run(args: &Args) -> i32 {
         }
         let peers: Vec<_> = (0..n).map(|i| net.peer(i)).collect();
         let unreachable = vnet::keypair(rng.next_u64()).public().to_peer_id();
+        // a peer id nobody has, known to every node under the address of its neighbour: the dial reaches a node that
+        // authenticates as somebody else (WrongPeerId)
+        let ghost = vnet::keypair(rng.next_u64()).public().to_peer_id();
+        for i in 0..n {
+            net.swarm(i).behaviour_mut().add_address(&ghost, mem(100 + ((i + 1) % n) as u64));
+        }
         let mut logs: Vec<NodeLog> = (0..n).map(|_| NodeLog::default()).collect();
         macro_rules! sink {
             () => {
@@ -205,11 +211,17 @@ pub fn run(args: &Args) -> i32 {
                     } else {
                         *rng.pick(&[PLAN_OK, PLAN_OK, PLAN_OK, WRITE_REQ_FAIL, READ_REQ_FAIL, WRITE_RESP_FAIL, READ_RESP_FAIL])
                     };
-                    let target = if rng.chance(1, 8) { unreachable } else { peers[(i + 1 + rng.usize(n - 1)) % n] };
+                    let target = if rng.chance(1, 8) {
+                        unreachable
+                    } else if rng.chance(1, 8) {
+                        ghost
+                    } else {
+                        peers[(i + 1 + rng.usize(n - 1)) % n]
+                    };
                     let id = net.swarm(i).behaviour_mut().send_request(&target, Payload { seq, plan });
                     net.touch(i);
                     logs[i].sent.push((id, seq, plan));
-                    logs[i].events.push(format!("send_request -> {id} seq {seq} plan '{}'{}", PLANS[plan as usize], if target == unreachable { " (unreachable peer)" } else { "" }));
+                    logs[i].events.push(format!("send_request -> {id} seq {seq} plan '{}'{}", PLANS[plan as usize], if target == unreachable { " (unreachable peer)" } else if target == ghost { " (peer id nobody has; its address leads to another node)" } else { "" }));
                     sig.push_u64(plan as u64);
                 }
                 1 => {
